@@ -299,8 +299,7 @@ Proof. intros H. exact (enc_strict_utf8_scalar u bs (utf8_encode_decode bs u H))
 (* ================================================================== *)
 (* 3. the codec interface                                              *)
 (* ================================================================== *)
-Definition encoder (k : codec) : bool :=
-  match k with Ascii | Latin1 | Cp1252 | Utf8 => true | _ => false end.
+(* [encoder k]: k is one of the four codecs with an encoder (Model/Codecs.v) *)
 
 (* decode (encode s) = Some s, whenever strict encoding succeeds *)
 Theorem codec_decode_encode k u b : encoder k = true ->
